@@ -29,6 +29,7 @@ BOUNDS = {'quick': {'tensor kinds': ['plain', 'diag', 'hard-fused', 'meta-fused'
                     'mps': 'N<=3, with/without central block, Mps/Mpo/MpoPBC', 'peps': '4 lattice types, <= 2x2'},
           'thorough': {'as quick': True}}
 OPTS = {'quick': {'max_paths': 50}, 'thorough': {'max_paths': 50}}
+FLOAT_XVAL = {'quick': 1.0, 'thorough': 1.0}     # dtype tags are observable on the float backend only
 SYMS = list(cat.SYMS)
 TKINDS = ['plain', 'diag', 'hard', 'meta', 'nested', 'lazy', 'empty', 'rank0', 'lazy_fused']
 
@@ -46,7 +47,7 @@ def cases(tier, seed):
             c = dict(row)
             c.update(kind='vec', tier=tier, id=f'vec-{rep}-{i}', seed=hash_seed(seed, 'C17', 'vec', rep, i))
             out.append(c)
-        for i, row in enumerate(cat.covering({'sym': SYMS, 'variant': ['sym', 'fermionic', 'meta-extra-block', 'meta-signature', 'meta-rank', 'legacy-noconfig', 'dict_ver'], 'level': [0, 1, 2]},
+        for i, row in enumerate(cat.covering({'sym': SYMS, 'variant': ['sym', 'fermionic', 'meta-extra-block', 'meta-signature', 'meta-rank', 'legacy-noconfig', 'dict_ver', 'meta-shifted-charges', 'meta-other-n'], 'level': [0, 1, 2]},
                                              seed=seed * 3 + rep, strength=2)):
             c = dict(row)
             c.update(kind='reject', tier=tier, id=f'reject-{rep}-{i}', seed=hash_seed(seed, 'C17', 'reject', rep, i))
@@ -113,7 +114,8 @@ def _observably_equal(ctx, r, a, label):
     ctx.check(r.config.sym.SYM_ID == a.config.sym.SYM_ID and r.config.fermionic == a.config.fermionic, f'{label}:config')
     ctx.check(r.get_signature() == a.get_signature() and r.get_signature(native=True) == a.get_signature(native=True), f'{label}:signature')
     wellformed(ctx, r, label, expect_n=a.n, check_dense_zero=False)
-    ctx.check(r.yastn_dtype == a.yastn_dtype or a.size == 0, f'{label}:dtype-tag', (r.yastn_dtype, a.yastn_dtype))
+    if ctx.mode == 'float':     # dtype tags of symbolic (object) arrays are emulated: the concrete dtype is observable on the float backend only
+        ctx.check(r.yastn_dtype == a.yastn_dtype or a.size == 0, f'{label}:dtype-tag', (r.yastn_dtype, a.yastn_dtype))
     nat = list(a.get_legs(native=True)) if a.ndim_n else None
     ctx.eq(reassemble(r, nat), reassemble(a, nat), f'{label}:dense-values')
     # pending permutation semantics: a follow-up operation sees the same tensor
@@ -125,7 +127,7 @@ def _observably_equal(ctx, r, a, label):
 def k_tensor(ctx, spec):
     import yastn
     rng = rng_of(spec)
-    cfg = cat.make_config(spec['sym'], fermionic=rng.choice(cat.FERMIONIC_LEVELS[spec['sym']]))
+    cfg = cat.make_config(spec['sym'], fermionic=rng.choice(cat.FERMIONIC_LEVELS[spec['sym']]), default_dtype=rng.choice(['float64', 'complex128']))
     a = _make_tensor(ctx, rng, spec, cfg)
     level, ch = spec['level'], spec['channel']
     if ch == 'to_dict':
@@ -250,6 +252,42 @@ def k_reject(ctx, spec):
         if all(x == 0 for x in a.n) and a.config.sym.NSYM == 0:
             pass
         ctx.expect_raises(lambda: a.to_dict(level=level, meta=meta), Y, 'to_dict(meta):signature-mismatch')
+    elif v in ('meta-shifted-charges', 'meta-other-n'):
+        # same block shapes / order / slices, but other charge sectors (or another total charge): must not be accepted as `matching`
+        if cfg.sym.NSYM == 0:
+            ctx.skip('no charges')
+        lg = cat.rand_leg(rng, symn, nsect=(2,), dims=(1, 2))
+        if len(lg['t']) < 2:
+            ctx.skip('single sector')
+        z = list(cfg.sym.zero())
+        t1 = {'sym': symn, 'fermionic': False, 's': [1, -1], 'legs': [lg, lg], 'n': z, 'blocks': [list(t) + list(t) for t in lg['t']], 'dtype': 'real', 'isdiag': False}
+        x = cat.build(ctx, t1, 'x', config=cfg)
+        if v == 'meta-shifted-charges':
+            sh = rng.choice([c for c in cat.window(symn) if any(c)])
+            from symx.wellformed import gadd
+            lt = sorted({tuple(gadd(cfg.sym.SYM_ID, [tuple(t), sh], [1, 1])) for t in lg['t']})
+            if len(lt) != len(lg['t']) or [list(t) for t in lt] == lg['t']:
+                ctx.skip('shift collapses sectors')
+            # keep the order-preserving image so that shapes / slices coincide
+            img = [tuple(gadd(cfg.sym.SYM_ID, [tuple(t), sh], [1, 1])) for t in lg['t']]
+            if img != sorted(img):
+                ctx.skip('shift does not preserve order')
+            lg2 = {'t': [list(t) for t in img], 'D': list(lg['D'])}
+            t2 = dict(t1, legs=[lg2, lg2], blocks=[list(t) + list(t) for t in img])
+        else:
+            # other total charge: signature (1, 1) partner with the same shapes is not available in general -> use n != 0 with shifted second leg
+            sh = rng.choice([c for c in cat.window(symn) if any(c)])
+            from symx.wellformed import gadd
+            img = [tuple(gadd(cfg.sym.SYM_ID, [tuple(t), sh], [1, 1])) for t in lg['t']]
+            if img != sorted(img) or len(set(img)) != len(img):
+                ctx.skip('shift does not preserve order')
+            lg2 = {'t': [list(t) for t in img], 'D': list(lg['D'])}
+            n2 = list(gadd(cfg.sym.SYM_ID, [sh], [-1]))
+            t2 = dict(t1, legs=[lg, lg2], n=n2, blocks=[list(t) + list(u) for t, u in zip(lg['t'], img)])
+        y = cat.build(ctx, t2, 'y', config=cfg)
+        ctx.check(x.slices == y.slices and x.struct.D == y.struct.D and x.struct.t != y.struct.t or x.struct.n != y.struct.n, 'precondition: same layout, different charges')
+        _, meta = yastn.split_data_and_meta(x.to_dict(level=level))
+        ctx.expect_raises(lambda: y.to_dict(level=level, meta=meta), Y, f'to_dict(meta):{v}')
     elif v == 'meta-rank':
         _, meta = yastn.split_data_and_meta(a.add_leg(axis=0).to_dict(level=level))
         ctx.expect_raises(lambda: a.to_dict(level=level, meta=meta), Y, 'to_dict(meta):rank-mismatch')
